@@ -219,6 +219,9 @@ def classify_call(prog, f, c):
             return False, None
         coll = c.args[0]["p"][0] if c.args and "p" in c.args[0] else None
         idx = c.args[1] if len(c.args) > 1 else None
+        if any("RangeFull" in str(x) for x in (c.gen or [])) or (idx is not None and "p" in idx and "RangeFull" in f.locals[idx["p"][0]]) \
+                or (idx is not None and isinstance(idx.get("c"), dict) and "RangeFull" in str(idx["c"].get("ty", ""))):
+            return True, "the whole range (`v[..]`) — cannot be out of bounds"
         if coll is not None and len_checked(f, c.bb, coll):
             return True, "index guarded by a dominating length check on the same collection"
         if idx is not None and "p" in idx:
